@@ -333,7 +333,7 @@ def oracle_all(case, obs):
                 key = "work-queue-race-files-dropped" if "support=0" in (r["tree"] or "") or not (r["tree"] or "").strip() else "cli-tree-differs"
                 found.append(("sumtrees CLI %s writes a different summary tree than serial mode: %s vs %s"
                               % (tag, (r["tree"] or "")[:120], (ref["tree"] or "")[:120]), key))
-        if ref["rc"] != 0 and not expect_fail:
+        if ref["rc"] != 0 and not expect_fail and allrecs:     # (no tree left after the burn-in: the CLI refuses, in every mode)
             found.append(("sumtrees CLI fails in serial mode: %s" % ref["log"][-200:], "cli-serial-fails"))
     return found
 
@@ -397,7 +397,7 @@ def stage(ctx, tier):
     from dv import c06
     os.makedirs(SCRATCH, exist_ok=True)
     rng = random.Random(ctx.rng.getrandbits(48))
-    ncases = 7 if tier == "quick" else 60
+    ncases = 10 if tier == "quick" else 60
     cases = []
     for i in range(ncases):
         c = gen_case(rng, i)
@@ -441,7 +441,8 @@ def stage(ctx, tier):
     ctx.notes.append("sumtrees: %d cases, %d multiprocessing runs, %.1fs; %d distinct (case, schedule) pairs handed to the model"
                      % (len(cases), nruns, time.time() - t0, len(terms)))
     if terms:
-        bad, errors = core.run_cases(ctx.pid, c06.HEADER, "stcase_ok", terms, shard=60, tag="_sumt")
+        bad, errors = core.run_cases(ctx.pid, c06.HEADER, "(stcase_ok_v %s)" % cbool(getattr(ctx, "variants", (False, False))[0]),
+                                    terms, shard=60, tag="_sumt")
         ctx.obligation("sumtrees: model evaluates all %d observed schedules (vm_compute)" % len(terms), not errors)
         for e in errors:
             ctx.notes.append(e[:1500])
